@@ -14,6 +14,9 @@ from sigma.exceptions import (
     SigmaTransformationError,
 )
 from sigma.types import (
+    SigmaBool,
+    SigmaNull,
+    SigmaNumber,
     SigmaString,
     SigmaType,
     SigmaFieldReference,
@@ -403,7 +406,13 @@ class ValueTransformation(DetectionItemTransformation):
                         # values directly and the new values serve as the serializable original.
                         # This only holds if no value modifier is left that would be applied to
                         # the already modified values again when the plain item is loaded.
-                        if any(issubclass(m, SigmaValueModifier) for m in r.modifiers):
+                        # It also holds only for values whose plain form is loaded as the same type
+                        # again: a regular expression or a case-sensitive string would be written as
+                        # a plain string.
+                        if any(issubclass(m, SigmaValueModifier) for m in r.modifiers) or not all(
+                            type(v) in (SigmaString, SigmaNumber, SigmaBool, SigmaNull)
+                            for v in r.value
+                        ):
                             r.disable_conversion_to_plain()
                         else:
                             r.original_value = r.value.copy()
